@@ -69,6 +69,8 @@ func genEnv(r *Run) *Env {
 		{Kind: "counter", Name: "cn", Val: cn},
 		{Kind: "obj", Name: "user", Val: e.User},
 		{Kind: "strs", Name: "lst", Val: e.List},
+		// names that start with / contain / end with a keyword of the literal syntax are still names
+		{Kind: "static", Name: "trueCount", Val: int64(3)}, {Kind: "static", Name: "falseAlarms", Val: int64(-2)}, {Kind: "static", Name: "countnil", Val: int64(7)},
 	}
 	// fk: the text of a key of user.Flags (or of no key), for user.Flags[fk] inside counter loops
 	fk := "nokey"
@@ -118,6 +120,7 @@ func genEnv(r *Run) *Env {
 		{Path: "user.Id", K: kStr, Val: e.User.Id}, {Path: "user.Name", K: kBytes, Val: e.User.Name}, {Path: "user.Status", K: kInt, Val: int64(e.User.Status), Bits: 32},
 		{Path: "user.Ustate", K: kUint, Val: e.User.Ustate}, {Path: "user.Cost", K: kFloat, Val: e.User.Cost},
 		{Path: "nope", K: kMissing}, {Path: "user.Nope", K: kMissing},
+		{Path: "trueCount", K: kInt, Val: int64(3)}, {Path: "falseAlarms", K: kInt, Val: int64(-2)}, {Path: "countnil", K: kInt, Val: int64(7)},
 	}
 	if e.User.HasFinance {
 		e.Paths = append(e.Paths, tpath{Path: "user.Finance.Balance", K: kFloat, Val: e.User.Balance}, tpath{Path: "user.Finance.MoneyIn", K: kFloat, Val: e.User.MoneyIn},
@@ -742,6 +745,10 @@ func (g *gen) sw(depth int) TNode {
 			if !ok {
 				lit = "1"
 			}
+			if p.K == kInt && p.Bits == 0 && !g.cfg.BuiltinOnly && g.r.Rng.Intn(4) == 0 {
+				// a VARIABLE as case label (also one whose name looks like a keyword)
+				lit = pick(g.r, []string{"trueCount", "falseAlarms", "countnil", "si"})
+			}
 			s.Cases = append(s.Cases, Case{Val: lit, Body: g.block(depth + 1)})
 		}
 	} else {
@@ -834,9 +841,9 @@ func (g *gen) counter() TNode {
 	case 2:
 		n.Kind = "--"
 	case 3:
-		n.Kind, n.N = "+", 1+g.r.Rng.Intn(9)
+		n.Kind, n.N = "+", g.r.Rng.Intn(10) // (also a step of zero)
 	default:
-		n.Kind, n.N = "-", 1+g.r.Rng.Intn(9)
+		n.Kind, n.N = "-", g.r.Rng.Intn(10)
 	}
 	return n
 }
